@@ -1,11 +1,11 @@
 CONSTANTS
-  MsgPool <- PoolSA
-  ReqModesSA = {"none", "byte", "kanji"}
-  ReqVersionsSA <- VersionsSA
-  ReqCountsSA <- CountsSA
-  ReqLevelsSA = {"-", "M", "H"}
+  MsgPool <- PoolQuickSA
+  ReqModesSA = {"none", "byte"}
+  ReqVersionsSA <- VersionsQuickSA
+  ReqCountsSA <- CountsQuickSA
+  ReqLevelsSA = {"-", "H"}
   ReqEciSA = {FALSE}
-  ReqBoostSA = {TRUE, FALSE}
+  ReqBoostSA = {TRUE}
   AllowDevPadSA = TRUE
   AllowDevEstimate = TRUE
 INIT SAInit
@@ -19,4 +19,4 @@ INVARIANT C08_Reassembly
 INVARIANT C07_SeqMode
 INVARIANT C05_SeqLevel
 INVARIANT C13_SeqTail
-INVARIANT SAExport
+INVARIANT SA_Progress
